@@ -467,11 +467,13 @@ def load_reaction(name: str):
     return qrules.io.load(str(CORPUS / f"{name}.json"))
 
 
-def load_real_models() -> list[tuple[str, object]]:
+def load_real_models(only=None) -> list[tuple[str, object]]:
     import ampform
 
     out = []
     for label, rname, kw in _configs():
+        if only is not None and label not in only:
+            continue
         r = load_reaction(rname)
         if kw.get("align") == "dpd":
             from ampform.helicity.align.dpd import DalitzPlotDecomposition, relabel_edge_ids
@@ -501,11 +503,16 @@ def load_real_models() -> list[tuple[str, object]]:
 
 ASSUMPTIONS = [{}, {"real": True}, {"positive": True}, {"nonnegative": True}, {"complex": True}]
 PARAM_NAMES = ["a", "b", "c1", "c2", "c10", "C_{x}", "C_{y;z}", "m_{f_0}", "Gamma_{f_0}", "d_{f_0}",
-               "g+1", "g-1", "w1.5", "w1.25", "m_0", "m_1", "B12", "b12", "k_{+1/2}", "k_{-1/2}"]
-KIN_NAMES = ["m_12", "m_012", "theta_0", "phi_0", "theta_1^12", "phi_1^12", "s", "t2", "t10", "m_02"]
+               "g+1", "g-1", "w1.5", "w1.25", "m_0", "m_1", "B12", "b12", "k_{+1/2}", "k_{-1/2}",
+               # names as the builders make them: backslashes, nested braces, commas, parentheses, arrows, blanks
+               "\\Gamma_{f_{0}(980)}", "m_{K^{*}(892)^{0}}", "C_{a, b}", "H_{D^{0} \\to K^{0} \\phi(1020), 0, -1/2}",
+               "C_{J/\\psi(1S) \\xrightarrow[S=1]{L=0} f_{0}(980) \\gamma; f_{0}(980) \\to \\pi^{0} \\pi^{0}}", "g [1]", "x'"]
+KIN_NAMES = ["m_12", "m_012", "theta_0", "phi_0", "theta_1^12", "phi_1^12", "s", "t2", "t10", "m_02",
+             "\\zeta^0_{1(2)}", "\\zeta^0_{2(1)}", "alpha_0^01", "beta_0^01"]
 FRESH_NAMES = ["k", "q7", "z_{new}", "x10", "x9", "x09", "w+2", "M1.50", "M1.5", "alpha_3^12", "Z", "z", "r_{0}", "r_{00}",
-               "u.5", "u0.5", "n-1", "n+1", "beta", "G_{f_2}", "y2", "y10", "y1e3"]
-VALUES = [1, 0, 0.5, 2.5, 1 + 0j, complex(0.3, -0.2), 0.1349768, -1.25]
+               "u.5", "u0.5", "n-1", "n+1", "beta", "G_{f_2}", "y2", "y10", "y1e3",
+               "\\beta_{1,2}", "a b", "c(1)", "\\zeta^3_{2(1)}", "m_{\\rho(770)^{+}}", "q:r", "u/v>w", "(", "{}"]
+VALUES = [1, 0, 0.5, 2.5, 1 + 0j, complex(0.3, -0.2), 0.1349768, -1.25, -0.0, 1e-300, 10**20, 1j, complex(-2, 0.0), -3, 7.0]
 
 
 def synthetic_model(rng, reaction, idx: int = 0):
@@ -535,6 +542,10 @@ def synthetic_model(rng, reaction, idx: int = 0):
         return chosen[0] if len(chosen) == 1 else ArraySum(*chosen)
 
     kin_defs = {k: rng.choice([InvariantMass, Phi, Theta, Energy])(mom_expr()) for k in kins}
+    for k in kins:  # definitions that contain parameters (as the zeta angles of an aligned model with stable masses)
+        if rng.random() < 0.3:
+            kin_defs[k] = sp.acos(rng.choice(params) * kin_defs[k] / (rng.choice(params) ** 2 + 1)) if rng.random() < 0.5 \
+                else kin_defs[k] * rng.choice(params) + rng.choice(params)
     if rng.random() < 0.3:  # a kinematic variable defined but not used
         kin_defs[sp.Symbol("unused_kin", real=True)] = InvariantMass(mom_expr())
     leaves = params + kins
@@ -566,6 +577,11 @@ def synthetic_model(rng, reaction, idx: int = 0):
     body = sp.Abs(A[lam]) ** 2
     if rng.random() < 0.5:  # an intensity that mentions parameters itself (allowed by the class)
         body = rng.choice(params) * body + (rng.choice(leaves) if rng.random() < 0.5 else 0)
+    if rng.random() < 0.2:  # … or Wigner functions of kinematic variables, as the aligned models do
+        from sympy.physics.quantum.spin import Rotation
+
+        j = sp.Rational(1, 2)  # (j = 1 costs seconds per numeric evaluation: SymPy simplifies every d-function)
+        body = body * sp.Abs(Rotation.D(j, j, rng.choice([j, -j]), rng.choice(kins), rng.choice(kins), rng.choice([0, rng.choice(kins)]))) ** 2
     intensity = PoolSum(body, (lam, pool))
     pvals = {p: rng.choice(VALUES) for p in params}
     for _ in range(rng.choice([0, 0, 1, 2])):  # parameters that occur only in parameter_defaults
@@ -708,6 +724,31 @@ def gen_map(rng, info, kind):  # noqa: C901, PLR0911, PLR0912
         dst = rng.choice(N) if rng.random() < 0.4 else fresh(rng, info)
         out[src] = dst
     return out
+
+
+def fresh_merge_of_different_assumptions(info, renames) -> bool:
+    """Finding F1: two symbols with different assumptions are sent to one name that no unrenamed symbol has."""
+    rd = dict(renames)
+    groups: dict[str, set] = {}
+    for n, syms in info["by_name"].items():
+        if n in rd:
+            for s in syms:
+                groups.setdefault(rd[n], set()).add(tuple(sorted(s.assumptions0.items())))
+    for new, asms in groups.items():
+        existing = new in info["by_name"] and new not in rd
+        if not existing and len(asms) > 1:
+            return True
+    return False
+
+
+def invertible(info, renames) -> dict | None:
+    """The inverse map, if `renames` sends known names injectively to names that do not exist yet."""
+    rd = dict(renames)
+    if not rd or len(set(rd.values())) != len(rd):
+        return None
+    if any(a not in info["by_name"] for a in rd) or any(b in info["by_name"] or b in rd for b in rd.values()):
+        return None
+    return {b: a for a, b in rd.items()}
 
 
 def gen_sequence(rng, length=None):
